@@ -168,7 +168,7 @@ fn check<C: Cm>(case: &Case) -> PResult {
         .class_if(case.a.straddles(bits) || spec_b.straddles(bits), "straddling_symbol")
         .class_if(ba.is_static() || bb.is_static(), "static_side")
         .class_if(matches!(case.a.repr, Repr::RawBitVec { .. }) || matches!(case.b_repr, Repr::RawBitVec { .. }), "raw_bitvec_side")
-        .class_if(matches!(case.a.repr, Repr::Truncated { .. } | Repr::Edited { .. } | Repr::RemovedPrefix { .. }), "edited_side"))
+        .class_if(matches!(case.a.repr, Repr::Truncated { .. } | Repr::Edited { .. } | Repr::RemovedPrefix { .. } | Repr::Refilled { .. } | Repr::TruncExtend { .. }), "edited_side"))
 }
 
 pub fn dispatch(case: &Case) -> PResult {
@@ -297,10 +297,8 @@ pub fn run(ctx: &mut Ctx) {
     }
     for id in ALL_CODECS {
         let m = id.model();
-        let th = ctx.thorough();
-        let cases = ctx.cases(6, 8);
-        let st = (gen::seq_spec_long(id, th), rel(m), gen::any_repr(m)).prop_map(move |(a, rel, b_repr)| Case { codec: id, a, rel, b_repr });
-        ctx.forall(&format!("pairs_long/{}", id.name()), cases, st, dispatch);
+        let lens = gen::long_lens(ctx.thorough());
+        ctx.forall_lens(&format!("pairs_long/{}", id.name()), &lens, |n| (gen::seq_spec_n(id, n), rel(m), gen::any_repr(m)).prop_map(move |(a, rel, b_repr)| Case { codec: id, a, rel, b_repr }), dispatch);
     }
     let types = ktypes();
     for id in ALL_CODECS {
